@@ -5,6 +5,7 @@ CONSTANTS
   FixPred = TRUE
   FixLeave = TRUE
   FixWrap = FALSE
+  FixDead = FALSE
   MaxTry = 2
   TrackCov = FALSE
   Goal = "none"
